@@ -143,7 +143,9 @@ func (r *subRegistry) Repositories(ctx context.Context, startAfter string) ocire
 	p := r.prefix + "/"
 	return func(yield func(string, error) bool) {
 		// TODO(go1.23): for name, err := range r.r.Repositories(ctx)
-		r.r.Repositories(ctx, startAfter)(func(repo string, err error) bool {
+		// The underlying registry knows the repositories by their
+		// prefixed names, so that's what it needs to start after.
+		r.r.Repositories(ctx, r.repo(startAfter))(func(repo string, err error) bool {
 			if err != nil {
 				yield("", err)
 				return false
